@@ -31,7 +31,7 @@ def mk(fx, np, t, codes, shape=None, dirty=False, **cfg):
     return fx.Fxp(a, bool(s), w, f, raw=True, **cfg)
 
 
-HIST = ['inplace', 'view', 'resign', 'elementwise', 'intfmt', 'fortran', 'transposed', 'intval']
+HIST = ['inplace', 'view', 'resign', 'elementwise', 'intfmt', 'fortran', 'transposed', 'intval', 'element']
 
 
 def warm_up(fx, np, X):
@@ -53,6 +53,7 @@ def mk_hist(fx, np, t, codes, shape=None, mode='inplace', **cfg):
       resign      - created with the opposite signedness, resized by sign only, used, then written in place
       fortran     - a 2-D operand stored in Fortran (column-major) order      transposed - the .T view of a C-ordered 2-D operand
                     (both hold the codes in the same LOGICAL order; only the memory layout differs)
+      element     - (scalar operands) the operand is an ELEMENT taken from an array by an integer index: its value is a NumPy scalar
       intval      - (n_frac <= 0) built BY VALUE from Python integers: the value type of the object is int and reads return integer arrays
       intfmt      - created from integers in the INTEGER format of the same word (n_frac = 0), resized in place to n_frac, used, written in place"""
     s, w, f = t
@@ -75,6 +76,12 @@ def mk_hist(fx, np, t, codes, shape=None, mode='inplace', **cfg):
             X = fx.Fxp(np.ascontiguousarray(a2.T), bool(s), w, f, raw=True, **cfg).T
         warm_up(fx, np, X)
         X.reset()
+        return X
+    if mode == 'element' and scalar:
+        A = fx.Fxp(np.array([other[0], clist[0], other[0]], dtype=dt), bool(s), w, f, raw=True, **cfg)
+        X = A[1] if (clist[0] + w) % 2 else A[-2]
+        if common.codes_of(X) != clist:
+            raise AssertionError('indexing changed the code')
         return X
     if mode == 'intval' and f <= 0 and w < 63:
         vals = [c << (-f) for c in clist]
@@ -149,7 +156,7 @@ def apply(fx, np, op, X, Y, route, **kw):
 
 
 def observe_arith(fx, np, props, op, tx, ty, cxs, cys, route='operator', sizing='optimal', method='raw', xmodes=None,
-                  ymodes=None, target=None, tfmt=None, tmodes=None, scalar=False, shape=None, extra=None, dirty=False):
+                  ymodes=None, target=None, tfmt=None, tmodes=None, scalar=False, shape=None, extra=None, dirty=False, template=None):
     """one array (or scalar) operation.  Returns an observation row (or an error row)."""
     xm = xmodes or ('trunc', 'saturate')
     ym = ymodes or ('trunc', 'saturate')
@@ -192,7 +199,13 @@ def observe_arith(fx, np, props, op, tx, ty, cxs, cys, route='operator', sizing=
                 kw['out'] = T
             elif target == 'out_like':
                 kw['out_like'] = T
-        Z = apply(fx, np, op, X, Y, route, **kw)
+        if template:          # a class-level template of another format / signedness / modes is active while the operation runs
+            base['route'] = base['route'] + '/template'
+            fx.Fxp.template = fx.Fxp(None, bool(template[0]), template[1], template[2], rounding='ceil', overflow='wrap')
+        try:
+            Z = apply(fx, np, op, X, Y, route, **kw)
+        finally:
+            fx.Fxp.template = None
         if not isinstance(Z, fx.Fxp):
             raise TypeError('result is %s, not Fxp' % type(Z).__name__)
         cz = common.codes_of(Z)
